@@ -399,12 +399,20 @@ def check_commit(ctx, tu, info, mut, f, fault_table):
                 continue
             if f.pos_reaches(wp, fp):
                 bad.append((wn, wd, fnode, fd))
-    def fault_name(n):
-        k = f.callee_key(n) or 'indirect'
+    def fault_name(n, fn=f, depth=2):
+        k = fn.callee_key(n) or 'indirect'
         last = k.split('::')[-1]
         # the finding is "a container insertion that may throw", whichever of the standard insertion members spells it
         if short(k).startswith('std::') and last in ('push_back', 'emplace_back', 'push_front', 'emplace_front', 'insert', 'emplace'):
             return 'container-insert'
+        # ... and whether it is written in place or in a helper of the library whose only fault points are such insertions
+        if depth > 0:
+            for g in fn.callee_fns(n):
+                if g.kind == 'lambda' or not g.d.get('lib', True):
+                    continue
+                inner = {fault_name(m, g, depth - 1) for m in g.nodes if (g.is_call(m) or g.is_construct(m)) and fault_of(info, g, m)}
+                if inner == {'container-insert'}:
+                    return 'container-insert'
         return last
     names = sorted({fault_name(b[2]) for b in bad})
     ctx.ob('C09.C', f, 'no allocation / user code / user copy can fail after the object was modified', not bad,
